@@ -43,6 +43,9 @@ type pipeSpec struct {
 	Outs   []outSpec
 	Meas   []string // measurements cycled over by the writer
 	Second func(a *attempt) string
+	// Batch: a batch task (batch|query()...): the source is the query node's own goroutine asking the fake
+	// InfluxDB every 20ms; "accepted" = the batches the fake returned to it; stall "query" = a query in flight
+	Batch bool
 	// Buf: influxDBOut buffer size (the sink sees nothing before a batch is full or the final flush)
 	Buf int
 	// NoLoss=false: the pipeline does not deliver point-for-point (join); only termination is judged.
@@ -152,6 +155,11 @@ func runAttempt(sc scen, post *postSink, dl deadlines) (*outcome, *attempt, erro
 	defer post.Forget(a.id)
 	defer env.Influx.Release()
 	defer a.rec.Release()
+	defer func() {
+		if q := env.Influx.QueryFn; q != nil {
+			env.Influx.QueryFn = nil
+		}
+	}()
 
 	out := &outcome{AtReturn: map[string][]int{}, Final: map[string][]int{}, Refused: map[string]int{}}
 
@@ -163,7 +171,11 @@ func runAttempt(sc scen, post *postSink, dl deadlines) (*outcome, *attempt, erro
 	// baseline: everything alive now is not the task's
 	base := takeCensus()
 
-	task, err := env.TM.NewTask(a.id, spec.Script(a), kapacitor.StreamTask, rt.DefaultDBRP, 0, nil)
+	tt := kapacitor.StreamTask
+	if spec.Batch {
+		tt = kapacitor.BatchTask
+	}
+	task, err := env.TM.NewTask(a.id, spec.Script(a), tt, rt.DefaultDBRP, 0, nil)
 	if err != nil {
 		return nil, nil, fmt.Errorf("NewTask: %v\n%s", err, spec.Script(a))
 	}
@@ -182,6 +194,8 @@ func runAttempt(sc scen, post *postSink, dl deadlines) (*outcome, *attempt, erro
 	stallSink := ""
 	switch parts := strings.Split(sc.Stall, ":"); parts[0] {
 	case "":
+	case "query":
+		a.stallKind, a.stallNode = "query", ""
 	case "sink":
 		stallSink = parts[1]
 		a.stallKind, a.stallNode = "sink", parts[1]
@@ -217,8 +231,18 @@ func runAttempt(sc scen, post *postSink, dl deadlines) (*outcome, *attempt, erro
 	if err != nil {
 		return nil, nil, fmt.Errorf("StartTask: %v", err)
 	}
-	// ---- offer the points (one WritePoints call each; acknowledged = nil error)
 	var accMu sync.Mutex
+	var bq *batchSource
+	if spec.Batch {
+		// every query returns one batch of one point with the next sequence number, N batches in all;
+		// with stall "query" the (N+1)-th... no: the N-th query is held inside the fake until released
+		bq = newBatchSource(sc.N, sc.Stall == "query")
+		env.Influx.QueryFn = bq.query
+		if err := et.StartBatching(); err != nil {
+			return nil, nil, fmt.Errorf("StartBatching: %v", err)
+		}
+	}
+	// ---- offer the points (one WritePoints call each; acknowledged = nil error)
 	write := func(seq int) bool {
 		meas := spec.Meas[(seq-1)%len(spec.Meas)]
 		tags := map[string]string{"t": "ok"}
@@ -237,6 +261,9 @@ func runAttempt(sc scen, post *postSink, dl deadlines) (*outcome, *attempt, erro
 	writerDone := make(chan struct{})
 	go func() {
 		defer close(writerDone)
+		if spec.Batch {
+			return
+		}
 		for s := 1; s <= sc.N; s++ {
 			write(s)
 		}
@@ -247,7 +274,12 @@ func runAttempt(sc scen, post *postSink, dl deadlines) (*outcome, *attempt, erro
 		return nil, nil, fmt.Errorf("writer blocked: %d points do not fit in front of the stall (scenario bug)", sc.N)
 	}
 	// all points forked into the task's source edge (StopTask/DeleteTask stop feeding the task by design)
-	if !waitFor(dl.Step, func() bool {
+	if spec.Batch {
+		// all queries answered (the last one is inside the fake when it is the stall)
+		if !waitFor(dl.Step, func() bool { return bq.ready() }) {
+			return nil, nil, fmt.Errorf("batch source: queries were not issued within %v", dl.Step)
+		}
+	} else if !waitFor(dl.Step, func() bool {
 		return sourceCollected(a.id) >= int64(sc.N) || (sc.Fail != "" && nodeFailed(diag))
 	}) {
 		st, _ := et.ExecutionStats()
@@ -264,6 +296,9 @@ func runAttempt(sc scen, post *postSink, dl deadlines) (*outcome, *attempt, erro
 		}
 	}
 	release := func() {
+		if bq != nil {
+			bq.release()
+		}
 		if stallGate != nil {
 			stallGate.Release()
 		}
@@ -461,6 +496,10 @@ func runAttempt(sc scen, post *postSink, dl deadlines) (*outcome, *attempt, erro
 		if len(out.Errors) < 6 {
 			out.Errors = append(out.Errors, e.Ctx+": "+e.Msg+": "+e.Err)
 		}
+	}
+	if bq != nil {
+		bq.release()
+		out.Accepted = bq.returned()
 	}
 	sort.Ints(out.Accepted)
 	return out, a, nil
